@@ -248,6 +248,28 @@ func init() {
 		"(*time.Timer).Reset":     inTimerReset,
 		"time.Now":                func(r *Run, fr *frame, a []Value) Value { return r.timeValue() },
 		"time.Since":              inTimeSince,
+		"time.Until": func(r *Run, fr *frame, a []Value) Value {
+			return r.ctx.Sub(r.timeField(a[0], "ext"), r.nowTerm())
+		},
+		"(time.Time).Add": func(r *Run, fr *frame, a []Value) Value {
+			return r.timeWith(a[0], r.ctx.Add(r.timeField(a[0], "ext"), a[1].(*Term)))
+		},
+		"(time.Time).Sub": func(r *Run, fr *frame, a []Value) Value {
+			return r.ctx.Sub(r.timeField(a[0], "ext"), r.timeField(a[1], "ext"))
+		},
+		"(time.Time).After": func(r *Run, fr *frame, a []Value) Value {
+			return r.ctx.Slt(r.timeField(a[1], "ext"), r.timeField(a[0], "ext"))
+		},
+		"(time.Time).Before": func(r *Run, fr *frame, a []Value) Value {
+			return r.ctx.Slt(r.timeField(a[0], "ext"), r.timeField(a[1], "ext"))
+		},
+		"(time.Time).Equal": func(r *Run, fr *frame, a []Value) Value {
+			return r.ctx.Eq(r.timeField(a[0], "ext"), r.timeField(a[1], "ext"))
+		},
+		"(time.Time).IsZero": func(r *Run, fr *frame, a []Value) Value {
+			c := r.ctx
+			return c.And(c.Eq(r.timeField(a[0], "wall"), c.Const(64, 0)), c.Eq(r.timeField(a[0], "ext"), c.Const(64, 0)))
+		},
 		"(time.Duration).Seconds": inDurationSeconds,
 		"(*sync.Once).Do":         inOnceDo,
 		"(*sync.Mutex).Lock":      inMutexLock,
@@ -278,6 +300,15 @@ func init() {
 		"net/netip.ParseAddr": inParseAddr,
 	}
 	delete(intrinsics, pk+"verifMulHi")
+	registerAtomics()
+	for k, v := range atomicIntrinsics {
+		intrinsics[k] = v
+	}
+	intrinsics["(*sync.RWMutex).Lock"] = inRWLock
+	intrinsics["(*sync.RWMutex).Unlock"] = inRWUnlock
+	intrinsics["(*sync.RWMutex).RLock"] = inRWRLock
+	intrinsics["(*sync.RWMutex).RUnlock"] = inRWRUnlock
+	intrinsics["(*sync.Mutex).TryLock"] = inMutexTryLock
 }
 
 func inIte(r *Run, fr *frame, a []Value) Value {
@@ -580,18 +611,53 @@ func inUniqueMake(r *Run, fr *frame, a []Value) Value {
 
 // ---------- time ----------
 
+// time.Time model: a value obtained from time.Now() has wall = hasMonotonic (so that it differs from
+// the zero Time) and ext = the (symbolic) clock in nanoseconds; Add/Sub/After/Before/Equal/IsZero/
+// Since/Until work on ext alone (monotonic-clock semantics of package time).
+func (r *Run) nowTerm() *Term {
+	if r.clock == nil {
+		return r.ctx.Const(64, 0)
+	}
+	return r.clock
+}
+
 func (r *Run) timeValue() Value {
 	t := r.namedType("time", "Time")
 	z := r.zero(t).(*Struct)
-	now := r.clock
-	if now == nil {
-		now = r.ctx.Const(64, 0)
-	}
 	st := t.Underlying().(*types.Struct)
 	nz := &Struct{f: append([]Value(nil), z.f...)}
 	for i := 0; i < st.NumFields(); i++ {
+		switch st.Field(i).Name() {
+		case "ext":
+			nz.f[i] = r.nowTerm()
+		case "wall":
+			nz.f[i] = r.ctx.Const(64, 1<<63)
+		}
+	}
+	return nz
+}
+
+func (r *Run) timeField(v Value, name string) *Term {
+	t, ok := v.(*Struct)
+	st := r.namedType("time", "Time").Underlying().(*types.Struct)
+	if ok {
+		for i := 0; i < st.NumFields(); i++ {
+			if st.Field(i).Name() == name {
+				return t.f[i].(*Term)
+			}
+		}
+	}
+	r.unsupported("time.Time layout")
+	return nil
+}
+
+func (r *Run) timeWith(v Value, ext *Term) Value {
+	t := v.(*Struct)
+	st := r.namedType("time", "Time").Underlying().(*types.Struct)
+	nz := &Struct{f: append([]Value(nil), t.f...)}
+	for i := 0; i < st.NumFields(); i++ {
 		if st.Field(i).Name() == "ext" {
-			nz.f[i] = now
+			nz.f[i] = ext
 		}
 	}
 	return nz
@@ -1076,4 +1142,199 @@ func (r *Run) observeFmt(v Value) string {
 		return s
 	}
 	return r.show(v)
+}
+
+// ---------- sync/atomic, sync.RWMutex, TryLock ----------
+// corebgp itself uses none of these; they are modelled so that a change to the library which
+// introduces them is still decided (as synchronising, sequentially consistent visible operations)
+// instead of ending as "unsupported".
+
+func (r *Run) atomicOp(label string, pv Value, f func(old Value) (nv Value, ret Value)) Value {
+	p := pv.(Ptr)
+	if p.slot == nil {
+		r.goPanic("nil pointer dereference (atomic)")
+	}
+	key := "atomic:" + locKey(p)
+	g := r.sched.cur
+	var ret Value
+	r.visibleOn(label, key, func() {
+		if vc := r.sched.mutexVC[key]; vc != nil {
+			joinVC(g.vc, vc)
+		}
+		nv, rv := f(r.walk(p.slot.v, p.path))
+		if nv != nil {
+			p.slot.v = r.update(p.slot.v, p.path, nv)
+		}
+		ret = rv
+		r.sched.mutexVC[key] = copyVC(g.vc)
+		g.vc[g.id]++
+	})
+	return ret
+}
+
+func registerAtomics() {
+	for _, ty := range []string{"Int32", "Int64", "Uint32", "Uint64", "Uintptr", "Pointer"} {
+		ty := ty
+		atomicIntrinsics["sync/atomic.Load"+ty] = func(r *Run, fr *frame, a []Value) Value {
+			return r.atomicOp("atomic.Load", a[0], func(old Value) (Value, Value) { return nil, old })
+		}
+		atomicIntrinsics["sync/atomic.Store"+ty] = func(r *Run, fr *frame, a []Value) Value {
+			return r.atomicOp("atomic.Store", a[0], func(old Value) (Value, Value) { return a[1], nil })
+		}
+		atomicIntrinsics["sync/atomic.Swap"+ty] = func(r *Run, fr *frame, a []Value) Value {
+			return r.atomicOp("atomic.Swap", a[0], func(old Value) (Value, Value) { return a[1], old })
+		}
+		atomicIntrinsics["sync/atomic.CompareAndSwap"+ty] = func(r *Run, fr *frame, a []Value) Value {
+			return r.atomicOp("atomic.CompareAndSwap", a[0], func(old Value) (Value, Value) {
+				c := r.ctx
+				eq := r.valEq(old, a[1])
+				if eq.IsTrue() {
+					return a[2], eq
+				}
+				if eq.IsFalse() {
+					return nil, eq
+				}
+				ot, ok1 := old.(*Term)
+				nt, ok2 := a[2].(*Term)
+				if !ok1 || !ok2 {
+					r.unsupported("atomic compare-and-swap of pointers with a symbolic outcome")
+				}
+				return c.Ite(eq, nt, ot), eq
+			})
+		}
+		if ty == "Pointer" {
+			continue
+		}
+		atomicIntrinsics["sync/atomic.Add"+ty] = func(r *Run, fr *frame, a []Value) Value {
+			return r.atomicOp("atomic.Add", a[0], func(old Value) (Value, Value) {
+				nv := r.ctx.Add(old.(*Term), a[1].(*Term))
+				return nv, nv
+			})
+		}
+		atomicIntrinsics["sync/atomic.And"+ty] = func(r *Run, fr *frame, a []Value) Value {
+			return r.atomicOp("atomic.And", a[0], func(old Value) (Value, Value) {
+				return r.ctx.BAnd(old.(*Term), a[1].(*Term)), old
+			})
+		}
+		atomicIntrinsics["sync/atomic.Or"+ty] = func(r *Run, fr *frame, a []Value) Value {
+			return r.atomicOp("atomic.Or", a[0], func(old Value) (Value, Value) {
+				return r.ctx.BOr(old.(*Term), a[1].(*Term)), old
+			})
+		}
+	}
+}
+
+var atomicIntrinsics = map[string]func(*Run, *frame, []Value) Value{}
+
+type rwState struct {
+	writer  bool
+	readers int
+}
+
+func (r *Run) rwOf(p Ptr) (*rwState, string) {
+	if p.slot == nil {
+		r.goPanic("nil *sync.RWMutex")
+	}
+	key := locKey(p)
+	if r.sched.rw == nil {
+		r.sched.rw = map[string]*rwState{}
+	}
+	st := r.sched.rw[key]
+	if st == nil {
+		st = &rwState{}
+		r.sched.rw[key] = st
+	}
+	return st, key
+}
+
+func (r *Run) rwAcquire(key string) {
+	if vc := r.sched.mutexVC["rw:"+key]; vc != nil {
+		joinVC(r.sched.cur.vc, vc)
+	}
+}
+
+func (r *Run) rwRelease(key string) {
+	g := r.sched.cur
+	vc := r.sched.mutexVC["rw:"+key]
+	if vc == nil {
+		vc = map[int]int{}
+		r.sched.mutexVC["rw:"+key] = vc
+	}
+	joinVC(vc, g.vc)
+	g.vc[g.id]++
+}
+
+func inRWLock(r *Run, fr *frame, a []Value) Value {
+	st, key := r.rwOf(a[0].(Ptr))
+	r.blockUntilOn("RWMutex.Lock", "mu:"+key, func() bool { return !st.writer && st.readers == 0 }, func() {
+		st.writer = true
+		r.rwAcquire(key)
+	})
+	return nil
+}
+
+func inRWUnlock(r *Run, fr *frame, a []Value) Value {
+	st, key := r.rwOf(a[0].(Ptr))
+	bad := false
+	r.visibleOn("RWMutex.Unlock", "mu:"+key, func() {
+		if !st.writer {
+			bad = true
+			return
+		}
+		st.writer = false
+		r.rwRelease(key)
+	})
+	if bad {
+		r.goPanic("sync: Unlock of unlocked RWMutex")
+	}
+	return nil
+}
+
+func inRWRLock(r *Run, fr *frame, a []Value) Value {
+	st, key := r.rwOf(a[0].(Ptr))
+	r.blockUntilOn("RWMutex.RLock", "mu:"+key, func() bool { return !st.writer }, func() {
+		st.readers++
+		r.rwAcquire(key)
+	})
+	return nil
+}
+
+func inRWRUnlock(r *Run, fr *frame, a []Value) Value {
+	st, key := r.rwOf(a[0].(Ptr))
+	bad := false
+	r.visibleOn("RWMutex.RUnlock", "mu:"+key, func() {
+		if st.readers == 0 {
+			bad = true
+			return
+		}
+		st.readers--
+		r.rwRelease(key)
+	})
+	if bad {
+		r.goPanic("sync: RUnlock of unlocked RWMutex")
+	}
+	return nil
+}
+
+func inMutexTryLock(r *Run, fr *frame, a []Value) Value {
+	p := a[0].(Ptr)
+	if p.slot == nil {
+		r.goPanic("nil *sync.Mutex")
+	}
+	mt := r.namedType("sync", "Mutex")
+	sp := append(append([]pathElem(nil), p.path...), r.fieldPath(mt, "state")...)
+	key := locKey(p)
+	g := r.sched.cur
+	got := false
+	r.visibleOn("Mutex.TryLock", "mu:"+key, func() {
+		s := r.walk(p.slot.v, sp).(*Term)
+		if s.IsConst() && s.c == 0 {
+			got = true
+			p.slot.v = r.update(p.slot.v, sp, r.ctx.Const(32, 1))
+			if vc := r.sched.mutexVC[key]; vc != nil {
+				joinVC(g.vc, vc)
+			}
+		}
+	})
+	return r.ctx.Bool(got)
 }
